@@ -13,7 +13,10 @@
                                    in rune columns                 (lexer/parser obligation)
     docSmall doc                   line numbers and UTF-16 offsets of the document fit `uint32`
     hitGuard doc h                 an element whose range was computed by column arithmetic
-                                   (payee estimate, tag halves, name ranges) has a range of the text
+                                   (payee range, tag halves, name ranges) has a range of the text;
+                                   for a payee it holds on every header of the grammar
+                                   (`payeeRange_lexSound`, `payeeHit_guard`: the payee's position
+                                   is read off the header line, fix-payee-range.diff)
 
   Nothing is assumed about the characters that precede a range: the former guard "no rune
   outside the BMP earlier on the line" is gone (the `pinned_…` counterexamples keep the old
@@ -27,6 +30,7 @@ import HL.Model.Parser
 import HL.Model.Pipeline
 import HL.Model.LexerPinned
 import HL.Lemmas.ParserAmountRange
+import HL.Lemmas.PayeeRange
 namespace HL.Props.C08
 open HL HL.Ast HL.Text HL.Ranges HL.RangeSpec HL.Lemmas.Ranges HL.Lemmas.Text
 
@@ -210,9 +214,9 @@ example :
 theorem pinned_directive_name_no_end_counterexample :
     let doc := "account a:b\n".toList
     let j : Journal := ⟨[], [.account ⟨[97, 58, 98], ⟨⟨1, 9, 8⟩, Pos.zero⟩⟩ [] [] [] ⟨⟨1, 1, 0⟩, ⟨2, 1, 12⟩⟩], [], []⟩
-    ((workspaceSymbolHitsPinned j).map fun h => toN (astRangeToProtocolPinned h.rng)) =
+    ((workspaceSymbolHitsPinned (lines doc) j).map fun h => toN (astRangeToProtocolPinned h.rng)) =
       [⟨0, 8, 4294967295, 4294967295⟩] ∧
-    ((workspaceSymbolHitsPinned j).map fun h => rangeOK doc (toN (astRangeToProtocolPinned h.rng))) = [false] ∧
+    ((workspaceSymbolHitsPinned (lines doc) j).map fun h => rangeOK doc (toN (astRangeToProtocolPinned h.rng))) = [false] ∧
     ((workspaceSymbols (lines doc) j).map fun e => toN e.2) = [⟨0, 8, 0, 11⟩] ∧
     ((workspaceSymbols (lines doc) j).map fun e => covers doc (toN e.2) "a:b".toList) = [true] := by decide
 
@@ -225,7 +229,7 @@ theorem documentSymbol_rangeOK_partial (doc : Txt) (j : Journal)
   exact map_conv_rangeOK ht hd (symbolRanges_sub j) hg
 
 /-- Workspace symbols: every symbol's range is computed from a name (declared account or
-    commodity) or estimated (payee); well-formed whenever those rune columns are positions of the
+    commodity) or read off the header line (payee); well-formed whenever those rune columns are positions of the
     text.  The former guard "the range has an End" is gone. -/
 theorem workspaceSymbol_rangeOK (doc : Txt) (j : Journal) (h : Hit) (x : LRange)
     (hd : docSmall doc = true) (hh : (h, x) ∈ workspaceSymbols (lines doc) j)
@@ -340,20 +344,20 @@ theorem prepareRename_covers_partial (doc : Txt) (j : Journal) (c : Cur) (h : Hi
 /-- Nothing collected is dropped: every occurrence `findReferences` collects is in the response
     with the range computed for it. -/
 theorem references_complete (lns : List Txt) (j : Journal) (c : Cur) (decl : Bool) (t h : Hit)
-    (ht : findDefinitionTarget lns j c = some t) (hh : h ∈ referenceHits j t decl) :
+    (ht : findDefinitionTarget lns j c = some t) (hh : h ∈ referenceHits lns j t decl) :
     ∃ e ∈ references lns j c decl, e.2 = astRangeToProtocol lns h.rng := by
   unfold references
   simp only [ht]
-  obtain ⟨y, hy, hy2⟩ := sortAndDedup_sup ((referenceHits j t decl).map fun h => (h, astRangeToProtocol lns h.rng))
+  obtain ⟨y, hy, hy2⟩ := sortAndDedup_sup ((referenceHits lns j t decl).map fun h => (h, astRangeToProtocol lns h.rng))
     (h, astRangeToProtocol lns h.rng) (List.mem_map.mpr ⟨h, hh, rfl⟩)
   exact ⟨y, hy, hy2⟩
 
 /-- The `commodity` directive that declares the symbol is among the occurrences collected with
     the declaration, the `P` directive that prices it always is. -/
-theorem referenceHits_directive_site (j : Journal) (t : Hit) (decl : Bool) (d : Directive) (cm : Commodity)
+theorem referenceHits_directive_site (lns : List Txt) (j : Journal) (t : Hit) (decl : Bool) (d : Directive) (cm : Commodity)
     (hk : t.kind = .commodity) (hd : d ∈ j.directives) (hs : cm.symbol = t.name)
     (hsite : (∃ f n sub r, d = .commodity cm f n sub r ∧ decl = true) ∨ (∃ dt p r, d = .price dt cm p r)) :
-    directiveCommodityHit t.name cm ∈ referenceHits j t decl := by
+    directiveCommodityHit t.name cm ∈ referenceHits lns j t decl := by
   unfold referenceHits
   simp only [hk, List.mem_append, List.mem_flatMap]
   refine Or.inl ⟨d, hd, ?_⟩
@@ -373,7 +377,7 @@ theorem references_directive_site_covers (doc : Txt) (j : Journal) (c : Cur) (de
     (hat : DirectiveCommodityAt doc cm ln pre suf lex) (hsm : docSmall doc = true) :
     ∃ e ∈ references (lines doc) j c decl, rangeOK doc (toN e.2) = true ∧ covers doc (toN e.2) lex = true := by
   obtain ⟨e, he, he2⟩ := references_complete (lines doc) j c decl t _ ht
-    (referenceHits_directive_site j t decl d cm hk hd hs hsite)
+    (referenceHits_directive_site (lines doc) j t decl d cm hk hd hs hsite)
   have := directiveCommodity_rangeOK_covers doc cm ln pre suf lex hat hsm
   refine ⟨e, he, ?_⟩
   rw [he2]
@@ -736,24 +740,335 @@ example :
       List.replicate 2 [some "руб".toList] := by
   decide +kernel
 
-/-- `2024-01-15 (c1) Shop`: `estimatePayeeRange` places the payee one blank after the date; the
-    range sent for the payee "Shop" covers the code. -/
-theorem payee_estimate_counterexample :
+/-! ## The payee's range (repo_patches/fix-payee-range.diff)
+
+    The tree has no position for a transaction's description.  `(*columnMapper).payeeRange`
+    reads it off the header line of the text the tree was parsed from (`HL.PayeeRange`); the
+    theorems below hold for every line that consists of any text up to the end of the date
+    (`pre`: any date form, any column) followed by a header of the grammar of DESIGN 4.2
+    (`HL.Spec.HeaderG.Header`, well-formedness `Header.wf`): optional secondary date, status
+    mark and code, each after any run of blanks and tabs, then the payee, then anything
+    (`| note`, `; comment`, the CR of a CRLF line end). -/
+
+open HL.Spec.HeaderG in
+/-- What text and tree must say about the transaction `tx` for `h` to be its header: the line of
+    the date is `pre` followed by the printed header, `pre` ends where the tree says the date
+    ends, and the payee written there has as many runes as the payee of the tree
+    (`getPayeeOrDescription`). -/
+def HeaderAt (doc : Txt) (tx : Transaction) (pre : Txt) (h : Header) : Prop :=
+  1 ≤ tx.date.range.start.line ∧ 1 ≤ tx.date.range.stop.col ∧
+  (docLines doc)[tx.date.range.start.line - 1]? = some (pre ++ h.print) ∧
+  pre.length = tx.date.range.stop.col - 1 ∧
+  h.payee.length = runeLenB (payeeOf tx)
+
+open HL.Spec.HeaderG in
+/-- **The range computed for the payee starts right after the header's lead and is as long as
+    the payee.** -/
+theorem payeeRange_eq (doc : Txt) (tx : Transaction) (pre : Txt) (h : Header)
+    (hat : HeaderAt doc tx pre h) (hw : h.wf = true) :
+    payeeRange (lines doc) tx (payeeOf tx) =
+      ⟨⟨tx.date.range.start.line, tx.date.range.stop.col + h.lead.length, 0⟩,
+       ⟨tx.date.range.start.line, tx.date.range.stop.col + h.lead.length + runeLenB (payeeOf tx), 0⟩⟩ := by
+  obtain ⟨h1, h2, hl, hpre, _⟩ := hat
+  obtain ⟨l, hl', hcr⟩ := docLines_lines doc _ _ hl
+  have hcol : HL.PayeeRange.descriptionColumn l tx.date.range.stop.col =
+      some (tx.date.range.stop.col + h.lead.length) := by
+    rcases hcr with rfl | rfl
+    · simp only [Header.print]
+      exact HL.Lemmas.PayeeRange.descriptionColumn_header pre h h.tail _ hw h2 hpre
+    · simp only [Header.print, List.append_assoc]
+      exact HL.Lemmas.PayeeRange.descriptionColumn_header pre h (h.tail ++ ['\r']) _ hw h2 hpre
+  have h0 : tx.date.range.start.line ≠ 0 := by omega
+  simp only [payeeRange, HL.PayeeRange.payeeStart, h0, if_false, hl', hcol]
+
+open HL.Spec.HeaderG in
+/-- **payeeRange_lexSound.**  On every header of the grammar the computed range is a range of
+    the text that delimits exactly the payee's lexeme (rune columns). -/
+theorem payeeRange_lexSound (doc : Txt) (tx : Transaction) (pre : Txt) (h : Header)
+    (hat : HeaderAt doc tx pre h) (hw : h.wf = true) :
+    lexSound one doc (payeeRange (lines doc) tx (payeeOf tx)) h.payee = true := by
+  rw [payeeRange_eq doc tx pre h hat hw]
+  obtain ⟨h1, h2, hl, hpre, hlen⟩ := hat
+  refine span_lexSound doc _ (pre ++ h.print) (pre ++ h.lead) h.tail h.payee h1 (by simp; omega) hl
+    (by simp [Header.print, List.append_assoc]) (by simp; omega) rfl (by simp [hlen])
+
+open HL.Spec.HeaderG in
+/-- **payeeRange_covers.**  … hence the range sent for the payee (hover, prepareRename,
+    references, the rename edits, the workspace symbol) is a well-formed range of the document
+    and COVERS exactly the payee's lexeme — with a code, a secondary date, a status mark, any
+    spacing of blanks and tabs before it, `| note` or a comment after it, characters outside the
+    BMP anywhere on the line, LF or CRLF line ends.  No guard on the shape of the header is left
+    (`pinned_payee_estimate_counterexample` keeps the behaviour before the repair). -/
+theorem payeeRange_covers (doc : Txt) (tx : Transaction) (pre : Txt) (h : Header)
+    (hat : HeaderAt doc tx pre h) (hw : h.wf = true) (hd : docSmall doc = true) :
+    rangeOK doc (toN (astRangeToProtocol (lines doc) (payeeRange (lines doc) tx (payeeOf tx)))) = true ∧
+    covers doc (toN (astRangeToProtocol (lines doc) (payeeRange (lines doc) tx (payeeOf tx)))) h.payee = true := by
+  have hl := payeeRange_lexSound doc tx pre h hat hw
+  exact ⟨conv_rangeOK (rngSound_of_lexSound hl) hd, conv_covers hl hd⟩
+
+/-- The located payee of a transaction, as every feature builds it. -/
+def payeeHit (lns : List Txt) (tx : Transaction) : Hit :=
+  ⟨.payee, payeeOf tx, payeeRange lns tx (payeeOf tx), true⟩
+
+open HL.Spec.HeaderG in
+/-- The payee hit of a grammar header passes `hitGuard`: the `_partial` theorems of hover,
+    prepareRename, references and rename apply to it with no guard on the header's shape. -/
+theorem payeeHit_guard (doc : Txt) (tx : Transaction) (pre : Txt) (h : Header)
+    (hat : HeaderAt doc tx pre h) (hw : h.wf = true) :
+    hitGuard doc (payeeHit (lines doc) tx) = true := by
+  simp only [hitGuard, payeeHit, if_true]
+  exact rngSound_of_lexSound (payeeRange_lexSound doc tx pre h hat hw)
+
+/-- Every transaction that shows a payee has a grammar header. -/
+def PayeesAt (doc : Txt) (j : Journal) : Prop :=
+  ∀ tx ∈ j.transactions, payeeOf tx ≠ [] → ∃ pre h, HeaderAt doc tx pre h ∧ HL.Spec.HeaderG.Header.wf h = true
+
+/-- The element is the payee of one of the journal's transactions. -/
+def IsPayeeHit (lns : List Txt) (j : Journal) (h : Hit) : Prop :=
+  ∃ tx ∈ j.transactions, payeeOf tx ≠ [] ∧ h = payeeHit lns tx
+
+/-- Hover: a payee element is the payee hit of a transaction of the journal. -/
+theorem findElement_payee {lns : List Txt} {j : Journal} {c : Cur} {h : Hit}
+    (hh : findElementAtPosition lns j c = some h) (hk : h.kind = .payee) : IsPayeeHit lns j h := by
+  obtain ⟨tx, ht, htx⟩ := List.exists_of_findSome?_eq_some hh
+  unfold hoverTx at htx
+  split at htx
+  · simp at htx; subst htx; simp at hk
+  · simp only at htx
+    split at htx
+    · rename_i hc
+      simp only [Bool.and_eq_true, decide_eq_true_eq] at hc
+      simp at htx; subst htx
+      exact ⟨tx, ht, hc.1, rfl⟩
+    · split at htx
+      · rename_i h' hf
+        simp at htx; subst htx
+        obtain ⟨cm, _, hcm⟩ := List.exists_of_findSome?_eq_some hf
+        exact absurd hk (findTag_kind hcm)
+      · obtain ⟨p, _, hpp⟩ := List.exists_of_findSome?_eq_some htx
+        exact absurd hk (hoverPosting_kind hpp)
+
+/-- Definition, references, rename, prepareRename: a payee target is the payee hit of a
+    transaction of the journal. -/
+theorem findDefinitionTarget_payee {lns : List Txt} {j : Journal} {c : Cur} {h : Hit}
+    (hh : findDefinitionTarget lns j c = some h) (hk : h.kind = .payee) : IsPayeeHit lns j h := by
+  unfold findDefinitionTarget findDefinitionTargetR at hh
+  split at hh
+  · rename_i h' hf
+    simp at hh; subst hh
+    obtain ⟨tx, ht, htx⟩ := List.exists_of_findSome?_eq_some hf
+    unfold defTx at htx
+    simp only at htx
+    split at htx
+    · rename_i hc
+      simp only [Bool.and_eq_true, decide_eq_true_eq] at hc
+      simp at htx; subst htx
+      exact ⟨tx, ht, hc.1, rfl⟩
+    · obtain ⟨p, _, hpp⟩ := List.exists_of_findSome?_eq_some htx
+      exact absurd hk (defPosting_kind hpp)
+  · obtain ⟨d, _, hdd⟩ := List.exists_of_findSome?_eq_some hh
+    exact absurd hk (defDirective_kind hdd)
+
+/-- The occurrences collected for a payee target are the payee hits of the transactions that
+    show that payee. -/
+theorem referenceHits_payee {lns : List Txt} {j : Journal} {t : Hit} {decl : Bool} {h : Hit}
+    (hk : t.kind = .payee) (hne : t.name ≠ []) (hh : h ∈ referenceHits lns j t decl) :
+    IsPayeeHit lns j h ∧ h.name = t.name := by
+  unfold referenceHits at hh
+  simp only [hk, List.mem_map, List.mem_filter, beq_iff_eq] at hh
+  obtain ⟨tx, ⟨ht, hp⟩, rfl⟩ := hh
+  exact ⟨⟨tx, ht, by rw [hp]; exact hne, by simp [payeeHit, hp]⟩, rfl⟩
+
+theorem payeeSymbols_payee {lns : List Txt} {seen : List Bytes} {txs : List Transaction} {h : Hit}
+    (hh : h ∈ payeeSymbols lns seen txs) : ∃ tx ∈ txs, payeeOf tx ≠ [] ∧ h = payeeHit lns tx := by
+  induction txs generalizing seen with
+  | nil => simp [payeeSymbols] at hh
+  | cons tx rest ih =>
+    simp only [payeeSymbols] at hh
+    split at hh
+    · rename_i hc
+      simp only [Bool.and_eq_true, decide_eq_true_eq] at hc
+      simp only [List.mem_cons] at hh
+      rcases hh with rfl | hh
+      · exact ⟨tx, by simp, hc.1, rfl⟩
+      · obtain ⟨tx', h1, h2⟩ := ih hh
+        exact ⟨tx', by simp [h1], h2⟩
+    · obtain ⟨tx', h1, h2⟩ := ih hh
+      exact ⟨tx', by simp [h1], h2⟩
+
+/-- Workspace symbols: a payee symbol is the payee hit of a transaction of the journal. -/
+theorem workspaceSymbolHits_payee {lns : List Txt} {j : Journal} {h : Hit}
+    (hh : h ∈ workspaceSymbolHits lns j) (hk : h.kind = .payee) : IsPayeeHit lns j h := by
+  simp only [workspaceSymbolHits, List.mem_append, List.mem_filterMap] at hh
+  rcases hh with ⟨d, _, hdd⟩ | hh
+  · split at hdd
+    · simp at hdd; subst hdd; simp at hk
+    · simp at hdd; subst hdd; simp [directiveCommodityHit] at hk
+    · simp at hdd
+  · exact payeeSymbols_payee hh
+
+/-- A payee hit of a journal whose headers are grammar headers: the range sent for it is
+    well-formed and covers the payee written in that header. -/
+theorem payeeHit_on_target (doc : Txt) (j : Journal) (h : Hit) (hp : PayeesAt doc j)
+    (hd : docSmall doc = true) (hh : IsPayeeHit (lines doc) j h) :
+    ∃ tx ∈ j.transactions, ∃ pre hdr, HeaderAt doc tx pre hdr ∧ h.name = payeeOf tx ∧
+      hitGuard doc h = true ∧
+      rangeOK doc (toN (astRangeToProtocol (lines doc) h.rng)) = true ∧
+      covers doc (toN (astRangeToProtocol (lines doc) h.rng)) hdr.payee = true := by
+  obtain ⟨tx, ht, hne, rfl⟩ := hh
+  obtain ⟨pre, hdr, hat, hw⟩ := hp tx ht hne
+  have := payeeRange_covers doc tx pre hdr hat hw hd
+  exact ⟨tx, ht, pre, hdr, hat, rfl, payeeHit_guard doc tx pre hdr hat hw, this.1, this.2⟩
+
+/-- **Hover on a payee**: the `Range` of the response is well-formed and covers the payee. -/
+theorem hover_payee_covers (doc : Txt) (j : Journal) (c : Cur) (h : Hit) (x : LRange)
+    (hp : PayeesAt doc j) (hd : docSmall doc = true)
+    (hh : hover (lines doc) j c = some (h, x)) (hk : h.kind = .payee) :
+    ∃ tx ∈ j.transactions, ∃ pre hdr, HeaderAt doc tx pre hdr ∧ h.name = payeeOf tx ∧
+      rangeOK doc (toN x) = true ∧ covers doc (toN x) hdr.payee = true := by
+  simp only [hover, Option.map_eq_some_iff] at hh
+  obtain ⟨h', hf, he⟩ := hh
+  simp only [Prod.mk.injEq] at he
+  obtain ⟨rfl, rfl⟩ := he
+  obtain ⟨tx, ht, pre, hdr, hat, hn, _, h1, h2⟩ := payeeHit_on_target doc j h' hp hd (findElement_payee hf hk)
+  exact ⟨tx, ht, pre, hdr, hat, hn, h1, h2⟩
+
+/-- **PrepareRename on a payee** (and the target of definition / references / rename). -/
+theorem prepareRename_payee_covers (doc : Txt) (j : Journal) (c : Cur) (h : Hit) (x : LRange)
+    (hp : PayeesAt doc j) (hd : docSmall doc = true)
+    (hh : prepareRename (lines doc) j c = some (h, x)) (hk : h.kind = .payee) :
+    ∃ tx ∈ j.transactions, ∃ pre hdr, HeaderAt doc tx pre hdr ∧ h.name = payeeOf tx ∧
+      rangeOK doc (toN x) = true ∧ covers doc (toN x) hdr.payee = true := by
+  simp only [prepareRename, Option.map_eq_some_iff] at hh
+  obtain ⟨h', hf, he⟩ := hh
+  simp only [Prod.mk.injEq] at he
+  obtain ⟨rfl, rfl⟩ := he
+  obtain ⟨tx, ht, pre, hdr, hat, hn, _, h1, h2⟩ := payeeHit_on_target doc j h' hp hd (findDefinitionTarget_payee hf hk)
+  exact ⟨tx, ht, pre, hdr, hat, hn, h1, h2⟩
+
+/-- **References of a payee** (`decl` is ignored: payees have no declaration): every location
+    is well-formed and covers the payee written in the header of a transaction that shows the
+    same payee as the one under the cursor. -/
+theorem references_payee_covers (doc : Txt) (j : Journal) (c : Cur) (decl : Bool) (t h : Hit) (x : LRange)
+    (hp : PayeesAt doc j) (hd : docSmall doc = true)
+    (ht : findDefinitionTarget (lines doc) j c = some t) (hk : t.kind = .payee)
+    (hh : (h, x) ∈ references (lines doc) j c decl) :
+    ∃ tx ∈ j.transactions, ∃ pre hdr, HeaderAt doc tx pre hdr ∧ payeeOf tx = t.name ∧
+      rangeOK doc (toN x) = true ∧ covers doc (toN x) hdr.payee = true := by
+  unfold references at hh
+  simp only [ht] at hh
+  have := sortAndDedup_sub _ _ hh
+  simp only [List.mem_map, Prod.mk.injEq] at this
+  obtain ⟨h', hm, rfl, rfl⟩ := this
+  obtain ⟨tx0, _, hne0, rfl⟩ := findDefinitionTarget_payee ht hk
+  obtain ⟨hph, hnm⟩ := referenceHits_payee (t := payeeHit (lines doc) tx0) hk (by simpa [payeeHit] using hne0) hm
+  obtain ⟨tx, htx, pre, hdr, hat, hn, _, h1, h2⟩ := payeeHit_on_target doc j h' hp hd hph
+  exact ⟨tx, htx, pre, hdr, hat, by rw [← hn, hnm], h1, h2⟩
+
+/-- **The rename edits of a payee** replace exactly the payee's lexeme in every header that
+    shows it. -/
+theorem rename_payee_covers (doc : Txt) (j : Journal) (c : Cur) (t h : Hit) (x : LRange)
+    (hp : PayeesAt doc j) (hd : docSmall doc = true)
+    (ht : findDefinitionTarget (lines doc) j c = some t) (hk : t.kind = .payee)
+    (hh : (h, x) ∈ rename (lines doc) j c) :
+    ∃ tx ∈ j.transactions, ∃ pre hdr, HeaderAt doc tx pre hdr ∧ payeeOf tx = t.name ∧
+      rangeOK doc (toN x) = true ∧ covers doc (toN x) hdr.payee = true :=
+  references_payee_covers doc j c true t h x hp hd ht hk hh
+
+/-- … and none is left out: the header of every transaction that shows the payee under the
+    cursor is in the response, with the range of its payee. -/
+theorem references_payee_complete (doc : Txt) (j : Journal) (c : Cur) (decl : Bool) (t : Hit) (tx : Transaction)
+    (ht : findDefinitionTarget (lines doc) j c = some t) (hk : t.kind = .payee)
+    (htx : tx ∈ j.transactions) (hn : payeeOf tx = t.name) :
+    ∃ e ∈ references (lines doc) j c decl,
+      e.2 = astRangeToProtocol (lines doc) (payeeRange (lines doc) tx (payeeOf tx)) := by
+  have hm : payeeHit (lines doc) tx ∈ referenceHits (lines doc) j t decl := by
+    unfold referenceHits
+    simp only [hk, List.mem_map, List.mem_filter, beq_iff_eq]
+    exact ⟨tx, ⟨htx, hn⟩, by simp [payeeHit, hn]⟩
+  exact references_complete (lines doc) j c decl t _ ht hm
+
+/-- **The workspace symbol of a payee.** -/
+theorem workspaceSymbol_payee_covers (doc : Txt) (j : Journal) (h : Hit) (x : LRange)
+    (hp : PayeesAt doc j) (hd : docSmall doc = true)
+    (hh : (h, x) ∈ workspaceSymbols (lines doc) j) (hk : h.kind = .payee) :
+    ∃ tx ∈ j.transactions, ∃ pre hdr, HeaderAt doc tx pre hdr ∧ h.name = payeeOf tx ∧
+      rangeOK doc (toN x) = true ∧ covers doc (toN x) hdr.payee = true := by
+  simp only [workspaceSymbols, List.mem_map, Prod.mk.injEq] at hh
+  obtain ⟨h', hm, rfl, rfl⟩ := hh
+  obtain ⟨tx, ht, pre, hdr, hat, hn, _, h1, h2⟩ := payeeHit_on_target doc j h' hp hd (workspaceSymbolHits_payee hm hk)
+  exact ⟨tx, ht, pre, hdr, hat, hn, h1, h2⟩
+
+
+/-- **pinned_payee_estimate_counterexample** (before repo_patches/fix-payee-range.diff).
+    `2024-01-15 (c1) Shop`: `estimatePayeeRange` placed the payee one blank after the date, so
+    the range sent for the payee "Shop" (hover, prepareRename, references, the rename edit, the
+    workspace symbol) was 0:11–0:15, which covers the code `(c1)`.  The repaired server reads the
+    header line: 0:16–0:20, which covers `Shop`; without a text for the line (no mapper lines)
+    it still computes the estimate, its fallback. -/
+theorem pinned_payee_estimate_counterexample :
     let doc := "2024-01-15 (c1) Shop\n".toList
     let tx : Transaction := ⟨⟨2024, 1, 15, ⟨⟨1, 1, 0⟩, ⟨1, 11, 10⟩⟩⟩, none, .none, [99, 49], [83, 104, 111, 112],
       [], [], [], [], [], ⟨⟨1, 1, 0⟩, ⟨2, 1, 21⟩⟩⟩
-    let r := estimatePayeeRange tx (payeeOf tx)
-    rangeOK doc (toN (astRangeToProtocol (lines doc) r)) = true ∧
-    covers doc (toN (astRangeToProtocol (lines doc) r)) "Shop".toList = false ∧
-    slice doc (toN (astRangeToProtocol (lines doc) r)) = some "(c1)".toList := by decide
+    let old := estimatePayeeRange tx (payeeOf tx)
+    let new := payeeRange (lines doc) tx (payeeOf tx)
+    rangeOK doc (toN (astRangeToProtocol (lines doc) old)) = true ∧
+    covers doc (toN (astRangeToProtocol (lines doc) old)) "Shop".toList = false ∧
+    slice doc (toN (astRangeToProtocol (lines doc) old)) = some "(c1)".toList ∧
+    toN (astRangeToProtocol (lines doc) new) = ⟨0, 16, 0, 20⟩ ∧
+    covers doc (toN (astRangeToProtocol (lines doc) new)) "Shop".toList = true ∧
+    payeeRange [] tx (payeeOf tx) = old := by decide
 
-/-- … and it is exact on the canonical header `date payee` (non-vacuity of the payee guard). -/
+/-- Non-vacuity of `HeaderAt` / `Header.wf`: a header with secondary date, status mark, code
+    (with a blank inside), tabs and wide gaps, a character outside the BMP in the payee,
+    `| note`, a comment, on a CRLF line — and the canonical `date payee`. -/
 example :
-    let doc := "2024-01-15 Shop\n".toList
-    let tx : Transaction := ⟨⟨2024, 1, 15, ⟨⟨1, 1, 0⟩, ⟨1, 11, 10⟩⟩⟩, none, .none, [], [83, 104, 111, 112],
-      [], [], [], [], [], ⟨⟨1, 1, 0⟩, ⟨2, 1, 16⟩⟩⟩
-    let h : Hit := ⟨.payee, payeeOf tx, estimatePayeeRange tx (payeeOf tx), true⟩
-    hitGuard doc h = true ∧ lexSound one doc h.rng "Shop".toList = true := by decide
+    let doc := "2024-01-15 =2024-01-16\t!  (c 1)\t\t😀 Shop | note  ; t:v\r\n    a:b  1\r\n".toList
+    let tx : Transaction := { (default : Transaction) with
+      date := ⟨2024, 1, 15, ⟨⟨1, 1, 0⟩, ⟨1, 11, 10⟩⟩⟩, payee := "😀 Shop".toUTF8.toList }
+    let h : HL.Spec.HeaderG.Header := {
+      date2 := some (" ".toList, [], "2024-01-16".toList), status := some ("\t".toList, '!'),
+      code := some ("  ".toList, "c 1".toList), gap := "\t\t".toList, payee := "😀 Shop".toList,
+      note := some (" ".toList, " ".toList, "note".toList), comment := some ("  ".toList, " t:v".toList) }
+    HeaderAt doc tx "2024-01-15".toList h ∧ h.wf = true ∧
+    toN (astRangeToProtocol (lines doc) (payeeRange (lines doc) tx (payeeOf tx))) = ⟨0, 33, 0, 40⟩ ∧
+    HeaderAt "2024-01-15 Shop\n".toList
+      { (default : Transaction) with date := ⟨2024, 1, 15, ⟨⟨1, 1, 0⟩, ⟨1, 11, 10⟩⟩⟩, description := "Shop".toUTF8.toList }
+      "2024-01-15".toList { gap := " ".toList, payee := "Shop".toList } := by
+  refine ⟨⟨by decide, by decide, by decide +kernel, by decide, by decide +kernel⟩, by decide +kernel,
+    by decide +kernel, ⟨by decide, by decide, by decide +kernel, by decide, by decide +kernel⟩⟩
+
+/-! End to end: text in, payee ranges out (`HL.Pipeline.parseText` produces the tree, the server
+    model the ranges).  A CRLF document whose first header carries a secondary date, a status
+    mark, a code and `payee | note`, the second one tabs and a code with a blank; the payee
+    starts with a character outside the BMP.  Replayed against the real server from
+    replays/C08/payee-estimate.jsonl. -/
+
+def pText : String :=
+  "2024-01-15=2024-01-16 * (c1)   😀 Shop | note ; t:v\r\n    a:b  1\r\n2024/1/5\t(x 2)\t😀 Shop\r\n    a:b  1\r\n"
+def pTree : Journal := (HL.Pipeline.parseText Classes.go pText.toUTF8.toList).1
+
+/-- Hover on the payee of the first header, prepareRename on the second, references and the
+    rename edits from the second (both headers, each with the exact range of its payee), the
+    workspace symbol: every range covers `😀 Shop`. -/
+example :
+    let doc := pText.toList
+    TreePositionsSound one doc pTree = true ∧
+    (pTree.transactions.map fun tx => (tx.date.range.stop.col, payeeOf tx == "😀 Shop".toUTF8.toList)) =
+      [(11, true), (9, true)] ∧
+    (hover (lines doc) pTree ⟨0, 33⟩).map (fun e => (e.1.kind, toN e.2, hitGuard doc e.1)) =
+      some (.payee, ⟨0, 31, 0, 38⟩, true) ∧
+    (prepareRename (lines doc) pTree ⟨2, 18⟩).map (fun e => (toN e.2, hitGuard doc e.1)) =
+      some (⟨2, 15, 2, 22⟩, true) ∧
+    ((references (lines doc) pTree ⟨2, 18⟩ false).map fun e => (toN e.2, covers doc (toN e.2) "😀 Shop".toList)) =
+      [(⟨0, 31, 0, 38⟩, true), (⟨2, 15, 2, 22⟩, true)] ∧
+    ((rename (lines doc) pTree ⟨0, 31⟩).map fun e => (toN e.2, covers doc (toN e.2) "😀 Shop".toList)) =
+      [(⟨0, 31, 0, 38⟩, true), (⟨2, 15, 2, 22⟩, true)] ∧
+    ((workspaceSymbols (lines doc) pTree).map fun e => (toN e.2, covers doc (toN e.2) "😀 Shop".toList)) =
+      [(⟨0, 31, 0, 38⟩, true)] ∧
+    -- the cursor on the code, where the estimate put the payee, finds no payee any more
+    (hover (lines doc) pTree ⟨0, 26⟩).map (fun e => e.1.kind) = none := by
+  decide +kernel
 
 /-- `parseTags` as pinned: the BYTE offsets of the tag inside the comment text were added to the
     rune column of the `;`. -/
